@@ -314,6 +314,11 @@ def r5(ctx: Ctx, m):
             for x in cfgm.node_exprs(w))]
         starts = [s for s, lab in node.succ if lab not in ('exc', 'close')]
         witness = None
+        if through(node):
+          # the attempt itself notifies on every successful return (callee
+          # summary): nothing is left for the caller to do
+          ctx.ok(rule, fi, f'{unparse(calls[0])} notifies the {side} condition itself', calls[0])
+          continue
         for s in starts:
           if through(s):
             continue
@@ -335,6 +340,32 @@ def r5(ctx: Ctx, m):
           ctx.ok(rule, fi, f'{unparse(calls[0])} => notify {side}', calls[0])
     if n_sites == 0:
       raise AnalysisError(f'{rule}: no internal caller of {callee} found')
+  # (a') "consumers ... blocking or not": the public non-blocking dequeue is an
+  # entry of its own — a consumer that only polls it must wake a producer
+  # blocked on the full buffer just like get()/get_batch() do
+  gn = m.method('get_nowait')
+  gg = cfgm.cfg_of(gn.node)
+  raw = [nd for nd in gg.nodes if any(isinstance(x, ast.Call) and unparse(x.func) == 'self._queue.get_nowait'
+                                      for x in cfgm.node_exprs(nd))]
+  if not raw:
+    raise AnalysisError(f'{rule}: get_nowait no longer dequeues from self._queue')
+  for nd in raw:
+    through = lambda n_: sync.node_notifies(n_, gn, ENQ)
+    wit = None
+    for s_, lab in nd.succ:
+      if lab in ('exc', 'close') or through(s_):
+        continue
+      w = gg.must_pass(s_, [gg.exit_ret], through, cfgm.only_normal)
+      if w is not None or s_ is gg.exit_ret:
+        wit = w or [nd.text()]
+    if wit is not None:
+      ctx.fail(rule, gn, 'get_nowait: a successful dequeue notifies the enqueue condition',
+               'the public non-blocking get_nowait() returns a dequeued element without notifying the'
+               ' enqueue condition: a consumer that only polls get_nowait() frees a slot of a bounded'
+               ' queue but the producer blocked in put() is never woken — it waits for ever and the'
+               ' consumer sees queue.Empty for ever', node=nd.ast, witness=wit[-8:])
+    else:
+      ctx.ok(rule, gn, 'get_nowait: successful dequeue => notify enqueue', nd.ast)
   # (c) updates that can complete enqueueing
   watched = ('_enqueue_stop', '_enqueue_start', '_max_enqueuer')
   exempt = {'_start_enqueue': 'only increments _enqueue_start and raises'
@@ -1121,10 +1152,9 @@ from mlmverif.selfcheck import B, OK  # noqa: E402
 
 _F = 'utils/iter_utils.py'
 VARIANTS = [
-    B('batch-consumer-wakes-producer-once', _F,
+    OK('batch-consumer-wakes-producer-once', _F,
       '    result = []\n    with self._dequeue_lock:\n      while not max_batch_size or len(result) < max_batch_size:',
       '    result = []\n    producer_notified = False\n    with self._dequeue_lock:\n      while not max_batch_size or len(result) < max_batch_size:',
-      'R-C04-5',
       extra=((_F, '          if result:\n            _release_and_notify(self._dequeue_lock, notify=self._enqueue_lock)\n          logging.debug(',
               '          if result and not producer_notified:\n            _release_and_notify(self._dequeue_lock, notify=self._enqueue_lock)\n            producer_notified = True\n          logging.debug('),)),
     B('get-tests-emptiness-outside-the-condition', _F,
@@ -1140,6 +1170,9 @@ VARIANTS = [
       '    if not self._max_enqueuer:\n      return False\n    return self._enqueue_start == self._enqueue_stop == self._max_enqueuer',
       '    remaining = self._enqueue_start - self._enqueue_stop\n    return not remaining and self._enqueue_start >= self._max_enqueuer',
       'R-C04-13'),
+    B('revert-get-nowait-wakes-producer', 'utils/iter_utils.py',
+      '      with self._enqueue_lock:\n        self._enqueue_lock.notify()\n      return result\n',
+      '      return result\n', 'R-C04-5'),
     B('put-ignores-asyncio-full', 'utils/iter_utils.py',
       '        except (queue.Full, asyncio.QueueFull) as e:', '        except queue.Full as e:', 'R-C04-16'),
     OK('put-full-handler-order-swapped', 'utils/iter_utils.py',
@@ -1199,14 +1232,18 @@ VARIANTS = [
       '          self.put_nowait(value)\n          _release_and_notify(self._enqueue_lock, notify=self._dequeue_lock)\n          return',
       '          self.put_nowait(value)\n          return',
       'R-C04-5'),
-    B('drop-notify-after-get', _F,
+    # benign since fix 61eb96f: get_nowait() itself wakes a producer after every
+    # successful dequeue, the callers' own notifications are redundant
+    OK('drop-notify-after-get', _F,
+       '          value = self.get_nowait()\n          _release_and_notify(self._dequeue_lock, notify=self._enqueue_lock)',
+       '          value = self.get_nowait()'),
+    OK('get-batch-no-final-notify', _F,
+       '    with self._enqueue_lock:\n      self._enqueue_lock.notify()\n    logging.debug(',
+       '    logging.debug('),
+    B('drop-notify-after-get-and-in-get-nowait', _F,
       '          value = self.get_nowait()\n          _release_and_notify(self._dequeue_lock, notify=self._enqueue_lock)',
-      '          value = self.get_nowait()',
-      'R-C04-5'),
-    B('get-batch-no-final-notify', _F,
-      '    with self._enqueue_lock:\n      self._enqueue_lock.notify()\n    logging.debug(',
-      '    logging.debug(',
-      'R-C04-5'),
+      '          value = self.get_nowait()', 'R-C04-5',
+      extra=((_F, '      with self._enqueue_lock:\n        self._enqueue_lock.notify()\n      return result\n', '      return result\n'),)),
     B('stop-enqueue-no-notify', _F,
       '      if self.enqueue_done:\n        _release_and_notify(\n            self._states_lock, notify=self._dequeue_lock, notify_all=True\n        )',
       '      if self.enqueue_done:\n        pass',
@@ -1225,8 +1262,8 @@ VARIANTS = [
       '          self.put_nowait(value)\n          _release_and_notify(self._enqueue_lock, notify=self._dequeue_lock)\n          continue',
       'R-C04-7'),
     B('get-nowait-dequeues-twice', _F,
-      '        if self._queue.empty() and self.enqueue_done:\n          self._set_exhausted()\n        return result',
-      '        if self._queue.empty() and self.enqueue_done:\n          self._set_exhausted()\n        return self._queue.get_nowait()',
+      '        self._enqueue_lock.notify()\n      return result\n',
+      '        self._enqueue_lock.notify()\n      return self._queue.get_nowait()\n',
       'R-C04-7'),
     B('enqueue-skips-every-other', _F,
       '        self.put(next(iterator))',
